@@ -1,7 +1,11 @@
 (* C15 - Results are independent of ordering, labels, time origin and population scale.
    Statements only; proofs in Proofs/InvarianceProofs.v.
    PARTIAL: proved - flow-order invariance of every compartment's net rate (for any per-flow rate law),
-   time-shift invariance of expressions and of the whole Euler / RK4 trajectory, and the scaling
+   time-shift invariance of expressions, of the whole Euler / RK4 trajectory and of whole models (a model whose
+   flow parameters, adjustments and mixing matrices do not mention time returns the same compartment values,
+   at times moved by d, when its time span is moved by d), the whole-model scaling law (the rate of every flow
+   answers to a k-fold population by the factor of its kind; Euler rows scale by k along frequency-dependent
+   runs, Euler and RK4 rows for models without infection), and the scaling
    identities (clipping commutes with k > 0, prevalence is scale invariant, sums are homogeneous).
    Compartment / strata / stratification-order equivariance of the build, renaming and
    "flow added before = after an unadjusted stratification" are established by the metamorphic
@@ -9,7 +13,7 @@
 From Coq Require Import QArith Qcanon List String Bool Permutation.
 Import ListNotations.
 From S2 Require Import Base.Num Base.Arr Model.Expr Model.Struct Model.Solvers
-     Proofs.NumQc Proofs.NumLemmas Proofs.InvarianceProofs Props.Examples.
+     Model.Rates Model.Run Model.Program Proofs.NumQc Proofs.NumLemmas Proofs.InvarianceProofs Proofs.TimeShift Proofs.Scaling Gen.SolversGen Props.Examples.
 
 Theorem C15_flow_permutation :
   forall (O : NumOps) (T : NumTheory O) (rate : flow -> F O) (fl fl' : list flow) (c : comp),
@@ -30,6 +34,25 @@ Theorem C15_time_shift :
 Proof. intros O f h t0 t0' y0 k Hf. split; [apply time_shift_euler|apply time_shift_rk4]; exact Hf. Qed.
 Print Assumptions C15_time_shift.
 
+(* whole models: if no flow parameter, adjustment or mixing matrix mentions time, then (1) the rates are the same at
+   every time, (2) moving the time span by d leaves every row of the compartment values unchanged, for both
+   fixed-step solvers and any number of steps, and (3) the k-th model time moves by d *)
+Theorem C15_time_shift_model :
+  forall (O : NumOps) (T : NumTheory O) (m : model),
+    model_time_free m = true ->
+    (forall b (p : env O) t t' x, get_comp_rates O m b p t x = get_comp_rates O m b p t' x)
+    /\ (forall (s : solver) (p pd pd' : env O) (d : Q) r r',
+          run_model_gen O m s p pd = Ok r -> run_model_gen O (shift_times m d) s p pd' = Ok r' ->
+          rr_outputs O r' = rr_outputs O r)
+    /\ (forall (d : Q) k, (k < num_times m)%nat ->
+          nth k (times_F O (shift_times m d)) (f0 O)
+          = let '(t0, _, h) := m_times m in of_Q O (t0 + d + inject_Z (Z.of_nat k) * h)%Q).
+Proof.
+  intros O T m H. split; [intros; apply (get_comp_rates_time_free O T); exact H|].
+  split; [intros s p pd pd' d r r'; apply (run_time_shift O T); exact H | intros d k; apply shifted_times_grid].
+Qed.
+Print Assumptions C15_time_shift_model.
+
 Theorem C15_scaling_partial :
   forall (O : NumOps) (T : NumTheory O) (k : F O),
     fpos O T k ->
@@ -42,8 +65,91 @@ Proof.
 Qed.
 Print Assumptions C15_scaling_partial.
 
+(* whole models, population scale.  For a model whose rate inputs do not mention the compartment values, and k > 0:
+   (1) the rate of the flow at position i at the state k * x is [flow_scale_factor] times its rate at x: k for
+       transition, death, crude-birth and replacement-birth flows, k for infection flows under frequency-dependent
+       transmission and k * k under density-dependent transmission (k once the contact rate is divided by k), and 1
+       for absolute inflows (importation / absolute flows are scaled through their own parameter);
+   (2) without absolute inflows and with frequency-dependent (or no) transmission every compartment's rate of change
+       is k times as large;
+   (3) hence every row of an Euler run started from k * y0 is k times the row of the run started from y0 (as long as
+       no mixing category is empty along the run, frequency-dependent case), and
+   (4) for models without infection flows the same holds for Euler and RK4 without any side condition. *)
+Theorem C15_scaling_model :
+  forall (O : NumOps) (T : NumTheory O) (m : model) (b : backend) (p : env O) (k : F O),
+    prepare_structural m = Ok b -> fpos O T k -> model_state_free m = true ->
+    (forall t x0 i,
+        (b_process b = Some true -> categories_nonempty O b (vclean O x0)) -> (i < List.length (m_flows m))%nat ->
+        nth i (get_flow_rates O m b p t (vscale O k x0)) (f0 O)
+        = fmul O (flow_scale_factor O b k (f_kind (nth i (m_flows m) Proofs.WeightProofs.dflow)))
+                 (nth i (get_flow_rates O m b p t x0) (f0 O)))
+    /\ (homogeneous_kinds m = true -> b_process b <> Some false ->
+        (forall t x0, (b_process b = Some true -> categories_nonempty O b (vclean O x0)) ->
+                      get_comp_rates O m b p t (vscale O k x0) = vscale O k (get_comp_rates O m b p t x0))
+        /\ (forall t0 h y0 n,
+              Forall (fun row => b_process b = Some true -> categories_nonempty O b (vclean O row))
+                     (solve_fixed O (gen_euler_step O) (fun t y => get_comp_rates O m b p t y) t0 h y0 n) ->
+              solve_fixed O (gen_euler_step O) (fun t y => get_comp_rates O m b p t y) t0 h (vscale O k y0) n
+              = map (vscale O k) (solve_fixed O (gen_euler_step O) (fun t y => get_comp_rates O m b p t y) t0 h y0 n))
+        /\ (b_process b = None -> forall t0 h y0 n (s : bool),
+              solve_fixed O (if s then gen_euler_step O else gen_rk4_step O) (fun t y => get_comp_rates O m b p t y) t0 h (vscale O k y0) n
+              = map (vscale O k) (solve_fixed O (if s then gen_euler_step O else gen_rk4_step O)
+                                              (fun t y => get_comp_rates O m b p t y) t0 h y0 n))).
+Proof.
+  intros O T m b p k Hb Hk Hsf. split.
+  - intros t x0 i Hc Hi. apply (flow_rate_scaling O T); assumption.
+  - intros Hh Hnd. split; [|split].
+    + intros t x0 Hc. apply (comp_rates_scaling O T); assumption.
+    + intros t0 h y0 n HP. apply (model_euler_scaling O T); assumption.
+    + intros Hn t0 h y0 n s. apply (model_linear_scaling O T); assumption.
+Qed.
+Print Assumptions C15_scaling_model.
+
 Example C15_nonvacuous :
   time_free (EAdd (EParam "beta"%string) (EMul (EComp 1) (EConst (1#2)))) = true
   /\ time_free (EAdd ETime (EConst 1)) = false
   /\ fclean QcOps (Q2Qc 3 * Q2Qc (-2#1))%Qc = (Q2Qc 3 * fclean QcOps (Q2Qc (-2#1)))%Qc.
 Proof. repeat split. Qed.
+
+(* non-vacuity of the whole-model statement: a built SIR model with a parameterised contact rate has no
+   explicit time dependence, and both it and its copy moved by 5/2 run *)
+Definition tf_model : option model :=
+  build_ok 0 1 (1#2) ["S"; "I"; "R"]%string ["I"]%string
+    [ OpPop [("S"%string, EConst 90); ("I"%string, EConst 10)];
+      OpFlow (FlowSpec KInfFreq "inf" (EParam "beta") "S" "I" [] [] None false);
+      OpFlow (FlowSpec KTrans "rec" (EConst (1#2)) "I" "R" [] [] None false) ].
+Fixpoint lbeq {A} (e : A -> A -> bool) (l1 l2 : list A) : bool :=
+  match l1, l2 with
+  | [], [] => true
+  | x :: l1', y :: l2' => e x y && lbeq e l1' l2'
+  | _, _ => false
+  end.
+(* (a boolean check, so that the kernel re-checks one vm_compute and not two whole trajectories as terms) *)
+Definition tf_check : bool :=
+  match tf_model with
+  | Some m =>
+      model_time_free m
+      && match run_model_gen QcOps m Euler ex_env ex_env, run_model_gen QcOps (shift_times m (5#2)) Euler ex_env ex_env with
+         | Ok r, Ok r' => lbeq (lbeq Qc_eq_bool) (rr_outputs QcOps r') (rr_outputs QcOps r)
+                          && Nat.eqb (List.length (rr_outputs QcOps r)) 3
+         | _, _ => false
+         end
+  | None => false
+  end.
+Example C15_time_shift_nonvacuous : tf_check = true.
+Proof. vm_compute. reflexivity. Qed.
+
+(* non-vacuity of the whole-model scaling statement: the time-free SIR model above is also state-free, has only
+   homogeneous flow kinds and frequency-dependent transmission, and its mixing category is not empty at the start *)
+Example C15_scaling_nonvacuous :
+  match tf_model with
+  | Some m => match prepare_structural m with
+              | Ok b => model_state_free m = true /\ homogeneous_kinds m = true /\ b_process b = Some true
+                        /\ categories_nonempty QcOps b (vclean QcOps (map Q2Qc [90; 10; 0]%Q))
+              | Err _ => False
+              end
+  | None => False
+  end.
+Proof.
+  vm_compute. repeat split. constructor; [|constructor]. intro H. discriminate H.
+Qed.
